@@ -64,6 +64,7 @@ func c05Operands(thorough bool) []c05Operand {
 		c05Operand{Name: "fn", Lit: func(string) Expr { return V("fn") }, NoVar: true},
 		c05Operand{Name: "printf", Lit: func(string) Expr { return V("printf") }, NoVar: true},
 	)
+	ops = append(ops, strOp("Infinity"), strOp("1e3")) // numeric strings that do not start with a digit or sign, or carry an exponent
 	if thorough {
 		for _, t := range []string{"4", "-3", "10", "9", "0.25", "-0.75", "5.7", "3.2", "100", "255", "1000", "4294967296", "9007199254740992", "123456789012345680000", "0.1", "0.000000000000000000001"} {
 			ops = append(ops, numOp(t))
@@ -559,6 +560,7 @@ func init() {
 					pc, i := pc, i
 					c.Do(func() any { return c05Spec{Form: "order", L: i, Text: pc.source()} }, func() *fw.Violation { v, _, _ := pc.check(c); return v })
 				}
+				copyTimeRun(c, "return") // an operand that is a call result is a value: a later operand cannot change it
 				for i, pc := range c05DerivedPrograms() {
 					pc, i := pc, i
 					c.Do(func() any { return c05Spec{Form: "derived", L: i, Text: pc.source()} }, func() *fw.Violation { v, _, _ := pc.check(c); return v })
@@ -616,6 +618,9 @@ func init() {
 			}
 		},
 		Replay: func(c *fw.Ctx, raw json.RawMessage) *fw.Violation {
+			if v, ok := copyTimeReplay(c, raw); ok {
+				return v
+			}
 			var s c05Spec
 			if !unmarshal(raw, &s) {
 				return nil
